@@ -652,6 +652,62 @@ class FitEnv:
         return S
 
 
+class PathEnv(FitEnv):
+    """the regularisation path of a sparse model in the stub environment: real `path` / `_path` / `compute_val_score` / `_batchify`,
+    with the selected-feature count scripted (d while training, then 0) so that exactly `outer` outer steps are made"""
+
+    def __init__(self, family, shape, outer=1, dynamic=False, y_given=False, **kw):
+        kw.setdefault("stop_after_training", False)
+        kw.setdefault("final_infer", "concrete")
+        hyper = dict(kw.pop("hyper", None) or {})
+        hyper.setdefault("dynamic", dynamic)
+        super().__init__(family, shape, hyper=hyper, **kw)
+        self.outer = outer
+        self.y_given = y_given
+        d = self.dm["d"]
+        self.nsel_calls = 0
+        env = self
+        self.val_calls = []
+
+        class _N(int):
+            def item(self):
+                return int(self)
+
+        def nsel():
+            # loop condition, recorded count and the all-features test read it three times per outer step
+            env.nsel_calls += 1
+            done_steps = env.path_epochs_done()
+            return _N(d if done_steps < env.outer else 0)
+        self.mdl._n_selected_features = nsel
+        self.mdl.get_selection = lambda: np.arange(d)
+        inner_pp = self.mdl.predict_proba
+
+        def pp(Xb):
+            env.val_calls.append({"rows": env._rows_of(Xb)})
+            m = len(Xb)
+            return np.array([[core.var(f"vp{len(env.val_calls)}_{i}_{k}", "+") for k in range(env.dm["K"])] for i in range(m)], dtype=object)
+        self.mdl.predict_proba = pp
+        if y_given:
+            self.y = harness.symmetric_matrix(self.n, "pre")
+
+    def path_epochs_done(self):
+        per_epoch = -(-self.n // (self.batch_size or self.n))
+        fit_steps = self.max_iter * per_epoch
+        return max(0, (len(self.steps) - fit_steps)) // per_epoch
+
+    def expected_steps(self):
+        per_epoch = -(-self.n // (self.batch_size or self.n))
+        return self.max_iter * per_epoch * (1 + self.outer)
+
+    def run_path(self, **kw):
+        import warnings
+        with warnings.catch_warnings(record=True) as wl:
+            warnings.simplefilter("always")
+            self.path_result = self.mdl.path(self.X, self.y, min_features=max(1, self.dm["d"] - 1) if self.dm["d"] > 1 else 0.5, **kw)
+        self.path_warnings = [str(w.message) for w in wl]
+        return self
+
+
 def numbers_register():
     import numbers
     try:
